@@ -34,7 +34,10 @@ Shapes == UNION {[1..k -> SegRecs] : k \in 0..MaxSegs}
 \* well-formed: runs are maximal (gap 0 only between different classes; coverage has no gap 0)
 WF(s) == \A i \in 2..Len(s) : s[i].gap = 0 => (Mode = "cdef" /\ s[i].cls # s[i - 1].cls)
 
-Cases == { [s |-> s, start |-> st, hi |-> h] : s \in {x \in Shapes : WF(x)}, st \in Starts, h \in BOOLEAN }
+\* glyph and range counts at the 8-bit carry: 255, 256, 257 runs of 1 glyph (format 1 is smaller) or
+\* 4 glyphs (format 2 is smaller; class definitions alternate two classes, gap 0 and 1)
+ManyShapes == { [i \in 1..k |-> [gap |-> g, run |-> r, cls |-> 1 + (i % 2)]] : k \in {255, 256, 257}, r \in {1, 4}, g \in {0, 1} }
+Cases == { [s |-> s, start |-> st, hi |-> h] : s \in {x \in Shapes \cup ManyShapes : WF(x)}, st \in Starts, h \in BOOLEAN }
 
 \* Bounds(c)[i] = <<first glyph, last glyph, coverage index of the first glyph>> of run i,
 \* before the shift that moves the last glyph to 0xFFFF
